@@ -380,6 +380,7 @@ type vfGateConn struct {
 	expV     int64
 	inForce  *vfGateAns // last valid answer served to this connection
 	authOK   bool       // a successful AUTH reply was seen
+	deep     bool
 	secret   string
 	identTLS bool
 }
@@ -785,6 +786,19 @@ func (c *vfGateConn) run(k vfGateCmd, ans vfGateAns, last bool) (op string, impl
 			o.Fail("auth-gate-grant:"+k.Name, fmt.Sprintf("%s on (%q,%q) had an effect although the grants in force %s do not allow it [%s]", k.Name, topic, channel, vfGateGrantsLine(force.Grants), op))
 		}
 	}
+	if in.cfg.Auth && k.gated() && (firstErr == "E_AUTH_FIRST" || firstErr == "E_AUTH_FAILED" || firstErr == "E_UNAUTHORIZED") {
+		// the documented code for the reason of the denial
+		want := "E_UNAUTHORIZED"
+		switch {
+		case !c.authOK:
+			want = "E_AUTH_FIRST"
+		case expired && !ans.Valid():
+			want = "E_AUTH_FAILED"
+		}
+		if firstErr != want {
+			o.Fail("deny-code:"+k.Name, fmt.Sprintf("%s denied with %s, the documented code for this situation is %s [%s]", k.Name, firstErr, want, op))
+		}
+	}
 	if firstErr == "E_AUTH_FIRST" || firstErr == "E_AUTH_FAILED" || firstErr == "E_UNAUTHORIZED" || firstErr == "E_AUTH_DISABLED" {
 		if grew {
 			o.Fail("deny-trace:"+k.Name, fmt.Sprintf("%s denied with %s left a trace: %s -> %s [%s]", k.Name, firstErr, vfGateSnapLine(before), vfGateSnapLine(after), op))
@@ -796,12 +810,9 @@ func (c *vfGateConn) run(k vfGateCmd, ans vfGateAns, last bool) (op string, impl
 	if in.cfg.Auth && k.gated() && c.authOK && len(replies) == 1 &&
 		(replies[0] == "OK" || firstErr == "E_UNAUTHORIZED" || firstErr == "E_AUTH_FAILED") {
 		// CheckAuth was reached: re-query exactly when the cached answer is past its TTL
-		want := 0
-		if expired {
-			want = 1
-		}
-		if len(seen) != want {
-			o.Fail("requery:"+k.Name, fmt.Sprintf("%s with cached authorization (now=%d, expires=%d): auth server saw %d request(s), expected %d [%s]", k.Name, c.vnow, c.expV, len(seen), want, op))
+		// (asking more often than needed is not a bypass: that direction is left to the correspondence)
+		if expired && len(seen) == 0 {
+			o.Fail("requery:"+k.Name, fmt.Sprintf("%s with cached authorization past its TTL (now=%d, expires=%d): the auth server was not asked again [%s]", k.Name, c.vnow, c.expV, op))
 		}
 		for _, s := range seen {
 			if s.Secret != c.secret {
@@ -1011,6 +1022,12 @@ func (in *vfGateInst) authCmd() vfGateCmd {
 func (in *vfGateInst) command(c *vfGateConn) vfGateCmd {
 	r := in.r
 	w := r.Intn(100)
+	if c.deep && r.Intn(3) != 0 {
+		w = r.Intn(62) // PUB / DPUB / MPUB / SUB (a SUB ends the publishing only if it is refused)
+		if w >= 48 && atomic.LoadInt32(&c.client.State) != stateInit {
+			w = r.Intn(48)
+		}
+	}
 	switch {
 	case w < 24:
 		k := vfGateCmd{Name: "PUB", Args: []string{in.topicName()}, Size: 1 + r.Intn(40)}
@@ -1192,13 +1209,18 @@ func (in *vfGateInst) scenario() {
 	in.out.Case(fmt.Sprintf("conn %d", c.id), "conn")
 	r := in.r
 	var plan []vfGateCmd
-	if r.Intn(10) < 7 {
+	deep := r.Intn(2) == 0 // half of the connections try hard to get past both gates and stay there
+	c.deep = deep
+	if deep || r.Intn(10) < 7 {
 		plan = append(plan, in.identify(c))
-		if in.cfg.DocTLSRequired() != 0 && r.Intn(4) != 0 { // mostly get through the TLS gate when there is one
+		if in.cfg.DocTLSRequired() != 0 && (deep || r.Intn(4) != 0) { // mostly get through the TLS gate when there is one
 			k := &plan[0]
 			k.BodyOK, k.FN, k.TLSv1 = true, true, true
-			if r.Intn(3) != 0 {
+			if deep || r.Intn(3) != 0 {
 				k.Cert = "trusted"
+			}
+			if deep {
+				k.HbOff = false
 			}
 			m := map[string]interface{}{"client_id": "v", "hostname": "h", "feature_negotiation": true, "tls_v1": true}
 			if k.HbOff {
@@ -1212,10 +1234,19 @@ func (in *vfGateInst) scenario() {
 	if !in.cfg.Auth {
 		auths = 15
 	}
-	if r.Intn(100) < auths {
-		plan = append(plan, in.authCmd())
+	if (deep && in.cfg.Auth) || r.Intn(100) < auths {
+		k := in.authCmd()
+		if deep {
+			k = vfGateCmd{Name: "AUTH", Secret: in.pick(vfGateSecrets)}
+			k.Body = []byte(k.Secret)
+			k.Size = len(k.Body)
+		}
+		plan = append(plan, k)
 	}
 	steps := 1 + r.Intn(5)
+	if deep {
+		steps = 3 + r.Intn(6)
+	}
 	for i := 0; i < len(plan)+steps && !c.closed; i++ {
 		var k vfGateCmd
 		if i < len(plan) {
@@ -1232,7 +1263,16 @@ func (in *vfGateInst) scenario() {
 			ch = in.pick(vfGateChans)
 		}
 		ans := in.answer(t, ch)
-		if k.Name == "AUTH" && r.Intn(3) != 0 {
+		if deep && r.Intn(4) != 0 {
+			// a valid answer that is often, but not always, enough for the command at hand
+			ans = vfGateAns{TTL: []int{1, 10, 60}[r.Intn(3)], Identity: "svc-7", URL: ""}
+			gt, gc := in.pick([]string{".*", vfGateRxQuote(t), vfGateRxQuote(t), in.pick(vfGatePats)}), in.pick([]string{".*", vfGateRxQuote(ch), in.pick(vfGatePats)})
+			ans.Grants = append(ans.Grants, vfGateGrant{Topic: gt, Channels: []string{gc}, Perms: [][]string{{"publish", "subscribe"}, {"publish", "subscribe"}, {"publish"}, {"subscribe"}}[r.Intn(4)]})
+			if r.Intn(3) == 0 {
+				ans.Grants = append(ans.Grants, vfGateGrant{Topic: in.pick(vfGatePats), Channels: []string{in.pick(vfGatePats), in.pick(vfGatePats)}, Perms: []string{"subscribe", "publish"}})
+			}
+		}
+		if k.Name == "AUTH" && (deep || r.Intn(3) != 0) {
 			// most AUTHs should succeed with something useful
 			ans = vfGateAns{TTL: []int{1, 10, 3600}[r.Intn(3)], Identity: "bob", URL: "http://id/bob",
 				Grants: []vfGateGrant{{Topic: in.pick(vfGatePats), Channels: []string{in.pick(vfGatePats)}, Perms: []string{"publish", "subscribe"}}}}
